@@ -4,6 +4,8 @@ import copy
 import importlib.util
 import json
 import os
+import re
+import subprocess
 
 import gen_validity as gv
 import vlib
@@ -13,6 +15,9 @@ FAMS = ("c10store", "c10mech", "c10http")
 
 
 GEN_FILE = os.path.join(vlib.LEAN, "HeimdallModel", "Gen", "CacheConsts.lean")
+SRC_FILE = os.path.join(vlib.LEAN, "HeimdallModel", "Gen", "CacheTTLSrc.lean")
+SRC_PROPS = os.path.join(vlib.LEAN, "HeimdallModel", "Props", "C10Src.lean")
+SRC_MOD = "HeimdallModel.Props.C10Src"
 
 
 def regenerate(R):
@@ -27,6 +32,239 @@ def regenerate(R):
         except mod.ExtractError as e:
             return str(e)
     return None
+
+
+# ---------------------------------------------------------------------------------------------------------------
+# the TTL functions translated from the source (Gen/CacheTTLSrc.lean, Props/C10Src.lean)
+
+def _src_mod():
+    path = os.path.join(vlib.VERIF, "extract", "go2lean", "cachettl.py")
+    spec = importlib.util.spec_from_file_location("c10_go2lean", path)
+    mod = importlib.util.module_from_spec(spec)
+    spec.loader.exec_module(mod)
+    return mod
+
+
+def regenerate_src(R):
+    """Gen/CacheTTLSrc.lean: getCacheTTL / isCacheEnabled of the current source translated to Lean (extract/go2lean,
+    fails closed: a stub without definitions is written, Props/C10Src.lean stops building)"""
+    mod = _src_mod()
+    with vlib.LeanLock():
+        try:
+            text = mod.regenerate(vlib.REPO, SRC_FILE)
+        except mod.TranslateError as e:
+            return str(e)
+    R.coverage["translated_functions"] = mod.translated_functions(text)
+    return None
+
+
+def step_lean_src(R):
+    """builds Props/C10Src.lean (equality of the translated functions with the model, for all inputs) and audits the
+    axioms of its theorems; the numbers are added to what step_lean recorded for Props/C10.lean"""
+    res = {"ok": False, "failed": [], "failed_theorems": [], "log": "", "axioms": {}}
+    with open(SRC_PROPS) as fh:
+        src = vlib.strip_comments(fh.read())
+    thms, nex = vlib.THM_RE.findall(src), len(vlib.EX_RE.findall(src))
+    res["obligations"] = len(thms) + nex
+    with vlib.LeanLock():
+        rc, log = vlib.lake(["build", SRC_MOD])
+        res["log"] = log[-6000:]
+        if rc != 0:
+            res["failed"] = sorted(set(re.findall(r"error: ([^\n]+)", log)))[:20]
+            # the theorem a reported line belongs to
+            lines = open(SRC_PROPS).read().splitlines()
+            bad = []
+            for ln in sorted({int(x) for x in re.findall(r"Props/C10Src\.lean:(\d+):", log)}):
+                for k in range(min(ln, len(lines)) - 1, -1, -1):
+                    m = vlib.THM_RE.match(lines[k])
+                    if m:
+                        if m.group(1) not in bad:
+                            bad.append(m.group(1))
+                        break
+            res["failed_theorems"] = bad
+        else:
+            audit = os.path.join(vlib.LEAN, ".lake", "audit_C10Src.lean")
+            with open(audit, "w") as fh:
+                fh.write(f"import {SRC_MOD}\nopen Heimdall.Props.C10\n")
+                for t in thms:
+                    fh.write(f"#print axioms {t}\n")
+            p = subprocess.run(["lake", "env", "lean", audit], cwd=vlib.LEAN, capture_output=True, text=True, timeout=900)
+            alog = p.stdout + p.stderr
+            if p.returncode != 0:
+                res["failed"] = ["axiom audit failed: " + alog[-1500:]]
+            else:
+                bad = []
+                for m in re.finditer(r"'([^']+)' (depends on axioms: \[([^\]]*)\]|does not depend on any axioms)", alog):
+                    axs = [a.strip() for a in (m.group(3) or "").replace("\n", " ").split(",") if a.strip()]
+                    res["axioms"][m.group(1).split(".")[-1]] = axs
+                    if not set(axs) <= vlib.ALLOWED_AXIOMS:
+                        bad.append(f"{m.group(1)}: {axs}")
+                missing = [t for t in thms if t not in res["axioms"]]
+                hits = vlib.forbidden_scan()
+                if bad or missing:
+                    res["failed"] = [f"disallowed axioms: {bad}", f"not audited: {missing}"]
+                elif hits:
+                    res["failed"] = ["forbidden tokens: " + "; ".join(hits[:10])]
+                else:
+                    res["ok"] = True
+            if res["ok"] and R.tier == "thorough":
+                p = subprocess.run(["lake", "env", "leanchecker", SRC_MOD], cwd=vlib.LEAN, capture_output=True,
+                                   text=True, timeout=3000)
+                R.coverage["leanchecker_src"] = "ok" if p.returncode == 0 else (p.stdout + p.stderr)[-1500:]
+                if p.returncode != 0:
+                    res["ok"] = False
+                    res["failed"] = ["leanchecker: " + R.coverage["leanchecker_src"]]
+    cov = R.coverage
+    cov["obligations"] = cov.get("obligations", 0) + res["obligations"]
+    cov["discharged"] = cov.get("discharged", 0) + (res["obligations"] if res["ok"] else 0)
+    cov.setdefault("axioms", {}).update(res["axioms"])
+    cov["theorems"] = sorted(set(cov.get("theorems", [])) | set(res["axioms"]))
+    cov["src_theorems"] = thms
+    cov["checker_cmd"] = (cov.get("checker_cmd", "") + f" && lake build {SRC_MOD} && lake env lean .lake/audit_C10Src.lean"
+                          + (f" && lake env leanchecker {SRC_MOD}" if R.tier == "thorough" else ""))
+    cov.setdefault("trusted_base", []).append(
+        "Go -> Lean translator extract/go2lean (go/ast, fails closed outside its subset; regenerates "
+        "Gen/CacheTTLSrc.lean from the whole bodies of getCacheTTL / isCacheEnabled on every run): trusted to keep the "
+        "meaning of the statements it translates; its table of atoms (cmd/cachettl/main.go) says which expressions read "
+        "the remote party's answer and the clock")
+    R.lean_src = res
+    return res["ok"]
+
+
+def _lean_run(R, mod, name, text):
+    path = os.path.join(R.tmp, name)
+    with open(path, "w") as fh:
+        fh.write(text)
+    with vlib.LeanLock():
+        return mod.run_lean(vlib.LEAN, path)
+
+
+def spec_verdicts(R, points):
+    """`ttlSpecVerdict` (Spec/CacheTTLBound.lean) on TTL values: a list of failed clauses per point"""
+    mod = _src_mod()
+    with vlib.LeanLock():
+        rc, log = vlib.lake(["build", "HeimdallModel.Spec.CacheTTLBound"])
+    if rc != 0:
+        return None
+    rc, rows, log = _lean_run(R, mod, "c10src_verdict.lean", mod.verdict_program(points))
+    return rows if rc == 0 and len(rows) == len(points) else None
+
+
+def src_case(mech, cfg, rem, ttl):
+    """the point (configured TTL, remaining lifetime) as a history for the real mechanism: the first request stores,
+    the second one asks again at the last instant the entry is alive"""
+    dt = ttl if ttl and ttl > 0 else 1
+    s0, s1 = {"dt": 0, "key": 0}, {"dt": dt, "key": 0}
+    if mech in gv.EXPIRING:
+        s0["exp"], s1["exp"] = rem, 100000
+    return {"fam": "c10mech", "mech": mech, "store": "virtual", "ttl": cfg, "steps": [s0, s1]}
+
+
+def run_point(R, exe, case):
+    for _ in range(4):
+        i = run_impl(R, exe, [case])[0]
+        if not inconclusive(i):
+            return i
+    return i
+
+
+def src_search(R, exe):
+    """Props/C10Src.lean no longer builds: find an input on which the translated function breaks the specification
+    (or at least differs from the model) by evaluating both on a boundary grid in Lean, and confirm it on the real
+    code through the c10mech family"""
+    mod = _src_mod()
+    failed = R.lean_src.get("failed_theorems") or []
+    named = ", ".join(failed) if failed else "; ".join(R.lean_src["failed"])[:300]
+    payload0 = {"lean_log": R.lean_src["log"], "failed": R.lean_src["failed"], "theorems": failed,
+                "kind": "src-vs-model"}
+    with vlib.LeanLock():
+        rc, log = vlib.lake(["build", "HeimdallModel.Gen.CacheTTLSrc", "HeimdallModel.Spec.CacheTTLBound"])
+    if rc != 0:
+        R.violation("the Lean translation of the TTL functions (Gen/CacheTTLSrc.lean) does not compile: "
+                    + "; ".join(sorted(set(re.findall(r"error: ([^\n]+)", log)))[:4])[:500],
+                    dict(payload0, lean_log=log[-4000:]), no_input=True)
+        return
+    rc, rows, log = _lean_run(R, mod, "c10src_grid.lean", mod.grid_program())
+    R.coverage["src_grid"] = {"points": len(mod.CFGS) * (len(mod.REMS) * len(mod.NOWS) * 5 + 9),
+                              "differing_or_failing": len(rows)}
+    if rc != 0:
+        R.violation(f"theorems of Props/C10Src.lean no longer check ({named}) and the grid evaluation failed",
+                    dict(payload0, grid_log=log), no_input=True)
+        return
+    if not rows:
+        R.violation(f"theorems of Props/C10Src.lean no longer check: {named}; the translated functions agree with the "
+                    "model and satisfy the specification on the whole boundary grid (the proof script does not "
+                    "cover this shape of the code, or the difference lies outside the grid)", payload0, no_input=True)
+        return
+    reported = 0
+    for mech in mod.MECHS:
+        mine = [r for r in rows if r["mech"] == mech]
+        if not mine:
+            continue
+
+        def weight(r):
+            bad = bool(r.get("spec")) or r.get("spec_ok") is False or not r["defined"]
+            cfg = r["case_ttl"]
+            # `expires_in: 0` = no expiry information; the JWT finalizer refuses a `ttl` of a second or less
+            unusable = (mech == "clientcreds" and r.get("rem") == 0) or (mech == "jwtfin" and cfg is not None and cfg < 2)
+            return (not bad, unusable, r.get("now", 0) != 0, r["fn"] != "ttl", cfg is None, abs(cfg or 0) > 400,
+                    abs((r.get("rem") or 0) - 20), abs(cfg or 0))
+
+        r = sorted(mine, key=weight)[0]
+        ns, _, kind = mod.MECHS[mech]
+        known = kind != "site" and r["fn"] == "ttl"
+        where = (f"{mech} (cache_ttl={r['case_ttl']}" + (f", remaining lifetime {r['rem']} s" if known else "")
+                 + (", no session lifespan" if mech == "generic" and r.get("session") is False else "") + ")")
+        fn = f"{ns}." + {("ttl", False): "getCacheTTL", ("ttl", True): "cacheWrite / cacheWriteTTL",
+                         ("enabled", False): "isCacheEnabled" if kind == "ptr" else "cacheRead",
+                         ("enabled", True): "cacheRead"}[(r["fn"], kind == "site")]
+        spec_bad = bool(r.get("spec")) or r.get("spec_ok") is False or not r["defined"]
+        if not r["defined"]:
+            verdict = ["the Go function dereferences nil / reads an absent value on this input"]
+        elif r["fn"] == "ttl":
+            verdict = r["spec"]
+        else:
+            verdict = [] if r["spec_ok"] else [f"the cache is consulted although cache_ttl={r['case_ttl']}"]
+        case = src_case(mech, r["case_ttl"], r.get("rem"), r["src"] if r["fn"] == "ttl" else 0)
+        impl = run_point(R, exe, case)
+        model = vlib.res_of(run_model([case])[0])
+        payload = dict(payload0, case=case, impl=impl, model=model, src_point=r, translated_function=fn,
+                       kind="src-vs-spec" if spec_bad else "src-vs-model")
+        ok_trace = isinstance(impl, list) and impl and isinstance(impl[0], dict)
+        seen_ttl = (impl[0].get("set") or 0) if ok_trace else None
+        seen_gets = impl[0].get("gets") if ok_trace else None
+        confirmed = []
+        if ok_trace and r["fn"] == "ttl":
+            v = spec_verdicts(R, [{"mech": mech, "cfg": r["cfg"], "rem": r.get("rem"), "ttl": seen_ttl}])
+            if v and v[0]:
+                confirmed = [f"the real code hands ttl {seen_ttl} to the cache: " + m for m in v[0]]
+        elif ok_trace and r["fn"] == "enabled" and not r["spec_ok"] and seen_gets:
+            confirmed = [f"the real code reads the cache ({seen_gets}x) although cache_ttl={r['case_ttl']}"]
+        elif not ok_trace and not r["defined"]:
+            confirmed = ["the real code fails on this input: " + json.dumps(impl)[:200]]
+        judged = judge([case], [impl]).get(0) if ok_trace else None
+        if judged:
+            confirmed += [f"request #{k}: {m}" for k, m in judged]
+            payload["spec_verdict"] = [list(x) for x in judged]
+        payload["src_spec_verdict"] = verdict
+        payload["confirmed_on_real_code"] = confirmed
+        reported += 1
+        if confirmed:
+            R.violation(f"{where}: translated source {fn} = {json.dumps(r['src'])}, model {json.dumps(r['model'])}: "
+                        + "; ".join(confirmed)[:500] + f" (theorems that no longer check: {named})", payload)
+        elif spec_bad:
+            R.violation(f"{where}: the translated source {fn} = {json.dumps(r['src'])} breaks the specification ("
+                        + "; ".join(verdict)[:300] + f") but this could not be confirmed on the real code at this "
+                        f"input (observed ttl={seen_ttl}, cache reads={seen_gets}): a parameter of the translation "
+                        "that is independent there (e.g. whether a cache key was computed) may be tied to the others "
+                        f"in the code; the theorems {named} no longer check", payload, no_input=True)
+        else:
+            R.violation(f"{where}: the translated source {fn} = {json.dumps(r['src'])} differs from the proved model "
+                        f"({json.dumps(r['model'])}; real code: ttl={seen_ttl}) but stays within the specification "
+                        f"(ttlWithinSpec holds on the whole grid for this mechanism): the theorems {named} no longer "
+                        "speak about this code", payload, no_input=True)
+    if not reported:
+        R.violation(f"theorems of Props/C10Src.lean no longer check: {named}", payload0, no_input=True)
 
 
 def harness_env(R):
@@ -304,6 +542,15 @@ def evidence(R, corpus, cases, impl, model, timing):
         "re-checks on every run",
         "pquerna/cachecontrol, ttlcache, rueidis, go-jose, x509 are exercised as they are, their part of the behaviour "
         "is validated by the correspondence only",
+        "translated source (Gen/CacheTTLSrc.lean): durations are whole seconds (time.Second = 1; the translator refuses "
+        "code in which a duration meets a bare number or a sub-second unit) - sound for the property because the "
+        "theorems c10_src_*_within_spec keep every TTL at least one second below the remaining lifetime computed from "
+        "truncated Unix() values; every time.Now() inside one call of getCacheTTL is the same instant `now`; the "
+        "object handed to getCacheTTL is not nil unless the code itself tests it; integers do not overflow; which Go "
+        "expression reads the expiry / the configured TTL / the clock is a table in extract/go2lean/cmd/cachettl (an "
+        "expression outside the table or the supported subset aborts the translation); the TTL expressions of the JWT "
+        "finalizer, the remote authorizer and the generic contextualizer are translated as the condition and the ttl "
+        "argument of their cache write only, the rest of those functions is covered by the correspondence run",
     ]
 
 
@@ -399,7 +646,9 @@ def run(R):
         # c10_constants_read_from_source fails; the correspondence run goes on with those constants
         R.violation("the cache constants can no longer be read from the source (extractor fails closed): " + gen_err,
                     {"extractor": "extract/validity (go/ast)", "error": gen_err}, no_input=True)
+    src_err = regenerate_src(R)
     lean_ok = vlib.step_lean(R, PID)
+    src_ok = step_lean_src(R)
     exe = vlib.step_harness(R)
     if exe is None:
         R.violation("harness does not build against /repo (API used by the correspondence check changed)",
@@ -414,6 +663,17 @@ def run(R):
     retried = rerun_inconclusive(R, exe, cases, impl)
     model = run_model(cases)
     timing = report(R, exe, cases, impl, model, lean_ok or bool(gen_err))
+    if src_err:
+        # the tie between the source and the model through the translated functions is broken; whether the change
+        # matters is left to the correspondence run above
+        R.violation("the TTL functions of the source can no longer be translated to Lean (extract/go2lean fails closed; "
+                    "the theorems c10_src_* of Props/C10Src.lean say nothing about this code): " + src_err,
+                    {"translator": "extract/go2lean (go/ast)", "error": src_err, "kind": "src-untranslatable"},
+                    no_input=True)
+    elif not src_ok:
+        src_search(R, exe)
+    # the replay file carries the first violation: concrete inputs first
+    R.violations.sort(key=lambda v: v[2])
     evidence(R, corpus, cases, impl, model, timing)
     R.coverage["inconclusive_retried"] = retried
     # coverage must not silently evaporate on a loaded machine
@@ -438,6 +698,21 @@ def replay(R, path):
     print("model:", json.dumps(m))
     print("spec :", json.dumps(j))
     R.coverage.update({"obligations": 1, "discharged": 1, "checker_cmd": "replay", "trusted_base": []})
+    pt = p.get("src_point") if isinstance(p, dict) else None
+    if pt and isinstance(i, list) and i and isinstance(i[0], dict):
+        # a point found through the translated source: the specification of the TTL on what the real code does there
+        if pt["fn"] == "ttl":
+            seen = i[0].get("set") or 0
+            v = spec_verdicts(R, [{"mech": pt["mech"], "cfg": pt["cfg"], "rem": pt.get("rem"), "ttl": seen}])
+            print("ttl  :", seen, json.dumps(v[0] if v else None))
+            if v and v[0]:
+                R.violation(f"replay: {describe_case(c)}: the real code hands ttl {seen} to the cache: "
+                            + "; ".join(v[0]), {"case": c, "impl": i, "model": m, "src_point": pt})
+                return
+        elif i[0].get("gets") and pt["cfg"] is not None and pt["cfg"] <= 0:
+            R.violation(f"replay: {describe_case(c)}: the real code reads the cache although cache_ttl={pt['cfg']}",
+                        {"case": c, "impl": i, "model": m, "src_point": pt})
+            return
     if j:
         R.violation(f"replay: request #{j[0][0]}: {j[0][1]}", {"case": c, "impl": i, "model": m, "spec_verdict": j})
     elif vlib.canon(i) != vlib.canon(m):
